@@ -1,5 +1,5 @@
 import Std.Data.HashMap
-import Uniseg.Spec.Apply
+import Uniseg.Proofs.Closure
 /-! # Product exploration: implementation automaton × canonical spec automaton × look-ahead promise
 
 Used (a) to *compute* the reachable product set that `Cert/*.lean` then has the kernel check for
@@ -9,25 +9,7 @@ and a suffix realising the promise, i.e. a concrete string.
 
 Not part of any proof: nothing here is trusted. -/
 namespace Uniseg.Explore
-open Uniseg Uniseg.Gen Uniseg.Spec
-
-/-- One segmentation algorithm as a pair of automata over a common letter alphabet `L`, with the
-look-ahead abstracted to a promise `R` about the text after the current letter. -/
-structure Alg (L R Q V : Type) where
-  name : String
-  rhoEnd : R                               -- promise of the empty rest
-  laStep : L → R → R                       -- promise of `x :: rest` from the promise of `rest`
-  trans : Option Nat → L → R → Nat × V     -- implementation (class-level core)
-  q0 : Q
-  qstep : Q → L → Q
-  qout : Q → L → R → V                     -- spec verdict before `x`, given the promise of the text after `x`
-  showV : V → String
-
-structure Node (R Q : Type) where
-  s : Option Nat
-  q : Q
-  rho : R
-deriving BEq, Hashable, Inhabited
+open Uniseg Uniseg.Gen Uniseg.Spec Uniseg.Auto
 
 instance : Inhabited GB.Q := ⟨GB.q0⟩
 instance : Inhabited WB.Q := ⟨WB.q0⟩
@@ -42,7 +24,7 @@ structure Disagree where
   path : List Nat       -- runes from the start of the text up to and including the deciding one
   suffix : List Nat     -- runes realising the promise
 
-variable {L R Q V : Type} [BEq L] [BEq R] [Hashable R] [BEq Q] [Hashable Q] [BEq V] [Inhabited R] [Inhabited Q]
+variable {L R Q V : Type} [DecidableEq L] [DecidableEq R] [Hashable R] [DecidableEq Q] [Hashable Q] [DecidableEq V] [Inhabited R] [Inhabited Q]
 
 /-- realisable promises with a witness suffix (as runes), by backward closure from the empty rest -/
 partial def promises (A : Alg L R Q V) (letters : Array (L × Nat)) : Array (R × List Nat) := Id.run do
@@ -113,80 +95,6 @@ partial def explore (A : Alg L R Q V) (letters : Array (L × Nat)) (maxReport : 
             nodes := nodes.push n'
     i := i + 1
   return ⟨nodes, transitions, dis, disCount⟩
-
-/-! ## the four instances -/
-
-def b2s (b : Bool) : String := if b then "1" else "0"
-
-def algG : Alg Nat Unit GB.Q Bool :=
-  { name := "gr", rhoEnd := (), laStep := fun _ _ => (),
-    trans := fun s x _ => transG s x,
-    q0 := GB.q0, qstep := GB.qstep, qout := fun q x _ => GB.qout q x, showV := b2s }
-
-/-- a word letter: the class code of the word table and Extended_Pictographic per the grapheme table -/
-structure WbL where
-  prop : Nat
-  gEP : Bool
-deriving BEq, Hashable, Repr
-
-def wbL (r : Nat) : WbL := ⟨property wordTable r, propertyGraphemes r == prExtendedPictographic⟩
-def WbL.ch (x : WbL) : WB.Ch := ⟨WB.ofProp x.prop, x.prop == prExtendedPictographic || x.gEP⟩
-
-/-- promise: the first class of the rest that WB4 does not ignore, as far as WB6/WB7b/WB12 (and the
-implementation's `farProperty` tests) can tell -/
-inductive Far | other | aletter | hebrew | numeric
-deriving BEq, Hashable, Repr, Inhabited, DecidableEq
-
-def Far.ofProp (p : Nat) : Far :=
-  if p == prALetter then .aletter else if p == prHebrewLetter then .hebrew else if p == prNumeric then .numeric else .other
-/-- the implementation's view: a value of `farProperty` -/
-def Far.impl : Far → Option Nat
-  | .other => none | .aletter => some prALetter | .hebrew => some prHebrewLetter | .numeric => some prNumeric
-/-- the spec's view: the next class WB4 does not ignore -/
-def Far.spec : Far → Option WB.C
-  | .other => none | .aletter => some .aletter | .hebrew => some .hebrew | .numeric => some .numeric
-
-def algW : Alg WbL Far WB.Q Bool :=
-  { name := "wb", rhoEnd := .other,
-    laStep := fun x rho => if wbIgnorable x.prop then rho else Far.ofProp x.prop,
-    trans := fun s x rho => transW s x.prop x.gEP rho.impl,
-    q0 := WB.q0, qstep := fun q x => WB.qstep q x.ch, qout := fun q x rho => WB.qout q x.ch rho.spec, showV := b2s }
-
-structure SbL where
-  prop : Nat
-  fffd : Bool
-deriving BEq, Hashable, Repr
-
-def sbL (r : Nat) : SbL := ⟨property sentenceTable r, r == Utf8.runeError⟩
-
-/-- promise: (the implementation's scan of the rest ends on Lower, the spec's scan does) -/
-abbrev SbR := Bool × Bool
-
-def algS : Alg SbL SbR SB.Q Bool :=
-  { name := "sb", rhoEnd := (false, false),
-    laStep := fun x rho =>
-      (if sbStopper x.prop then x.prop == prLower else rho.1,
-       if SB.isStop (SB.ofProp x.prop) then SB.ofProp x.prop == SB.C.lower else rho.2),
-    trans := fun s x rho => transS s x.prop (if sbStopper x.prop then x.prop == prLower else rho.1),
-    q0 := SB.q0, qstep := fun q x => SB.qstep q (SB.ofProp x.prop),
-    qout := fun q x rho => SB.qout q (SB.ofProp x.prop) rho.2, showV := b2s }
-
-instance : Hashable LbIn := ⟨fun x => mixHash (hash x.prop) (mixHash (hash x.eaFWH) (hash x.extPicCn))⟩
-
-def _root_.Uniseg.LbIn.ch (x : LbIn) : LB.Ch := ⟨LB.ofProp x.prop, x.eaFWH, x.extPicCn⟩
-
-def showLV : LB.V → String | .no => "0" | .can => "1" | .must => "2"
-def lvOfNat (n : Nat) : LB.V := if n == LineDontBreak then .no else if n == LineMustBreak then .must else .can
-
-/-- promise: (the implementation's LB25 look-ahead succeeds, `(CM|ZWJ)* NU` follows) -/
-abbrev LbR := Bool × Bool
-
-def algL : Alg LbIn LbR LB.Q LB.V :=
-  { name := "lb", rhoEnd := (false, false),
-    laStep := fun x rho => (if x.prop == prCM || x.prop == prZWJ then rho.1 else x.prop == prNU,
-      if LB.isCMZ x.ch.cls then rho.2 else x.ch.cls == LB.C.NU),
-    trans := fun s x rho => let t := transL s x rho.1; (t.1, lvOfNat t.2),
-    q0 := LB.q0, qstep := fun q x => LB.qstep q x.ch, qout := fun q x rho => LB.qout q x.ch rho.2, showV := showLV }
 
 def dedupLetters {L : Type} [BEq L] [Hashable L] (f : Nat → L) (runes : List Nat) : Array (L × Nat) := Id.run do
   let mut seen : Std.HashMap L Nat := Std.HashMap.emptyWithCapacity 256
